@@ -3,11 +3,22 @@
 The brief contains ONLY the property text and the rules; nothing from /verif."""
 import json, os, subprocess, sys
 pid = sys.argv[1]
-W, OUT = '/tmp/seed-%s' % pid, '/tmp/seed-%s-out' % pid
+rnd = sys.argv[2] if len(sys.argv) > 2 else ''
+W, OUT = '/tmp/seed%s-%s' % (rnd, pid), '/tmp/seed%s-%s-out' % (rnd, pid)
 if not os.path.isdir(W):
     subprocess.check_call(['git', '-C', '/repo', 'worktree', 'add', '-q', '--detach', W, 'HEAD'])
 os.makedirs(OUT, exist_ok=True)
 p = [json.loads(l) for l in open('/verif/properties.jsonl') if json.loads(l)['id'] == pid][0]
+import glob
+earlier = []
+for mf in sorted(glob.glob('/verif/seeded/%s-m*/meta.json' % pid)):
+    try:
+        m = json.load(open(mf)); earlier.append('- %s (files: %s)' % (m.get('title', ''), ', '.join(m.get('files_touched', []))))
+    except Exception:
+        pass
+known = [o['what'] for o in json.load(open('/verif/known_findings.json'))['open'] if o['property'] == pid]
+KNOWN = ('\n\n## Behaviours of the current tree that are already known and must NOT be used as seeds\n\n' + '\n'.join('- ' + k for k in known) + '\n') if known else ''
+EARLIER = ('\n\n## Ideas already used in an earlier round (do NOT repeat these or close variants; touch other functions / clauses)\n\n' + '\n'.join(earlier) + '\n') if (rnd and earlier) else ''
 text = json.dumps({k: p[k] for k in ('id', 'title', 'statement', 'quantifier', 'why_tests_cant', 'anchors')}, indent=1)
 open(OUT + '/BRIEF.md', 'w').write('''# Brief: seed realistic property-breaking changes into etal/cnvkit
 
@@ -22,6 +33,7 @@ worktree with `cd %(W)s && PYTHONPATH=%(W)s /venv/bin/python …`. No network.
 %(text)s
 ```
 
+%(EARLIER)s%(KNOWN)s
 ## What to produce
 
 Up to **three** independent changes to the source of cnvkit (cnvlib/ or skgenome/), each of which
@@ -29,9 +41,9 @@ Up to **three** independent changes to the source of cnvkit (cnvlib/ or skgenome
    what the statement promises — not a crash on malformed input, not a change outside the statement's scope);
 2. still imports/compiles, and the existing test suite still passes exactly as it does without the change:
    `cd %(W)s && /venv/bin/python -m pytest -q -p no:cacheprovider --timeout=900 --continue-on-collection-errors -rA 2>&1 | tail -80`
-   (on the unmodified tree 61 tests pass and 9 fail for environment reasons — test_smooth_log2, test_autobin, test_batch,
-   test_coverage, test_diploid_parx_genome, test_segment, test_segment_hmm, test_segment_parallel, test_cbs; compare the per-test
-   PASSED/FAILED list with and without your change: it must be identical);
+   (run it from the repository root; on the unmodified tree in this sandbox 64 tests pass and 6 fail for environment reasons —
+   test_smooth_log2, test_autobin, test_batch, test_coverage, test_diploid_parx_genome, test_cbs; compare the per-test PASSED/FAILED
+   list with and without your change: it must be identical; the run leaves an untracked test/chrM-Y-trunc.hg19.bed behind: delete it);
 3. looks like something a developer could plausibly commit (a refactor, an "optimisation", a fast path, a tidy-up of a boundary
    condition, caching, vectorisation, a changed default), NOT an obviously sabotaged line;
 4. **needs something specific to manifest**: a particular boundary value, an unusual but valid input shape (nesting, duplicates,
@@ -55,5 +67,5 @@ Procedure per change: edit in the worktree → run demo (must FAIL) → run the 
 end; do not commit. If a candidate fails any of the requirements, drop it and try another; three good ones are better than five
 doubtful ones, and one good one is better than none. Final message: for each kept change, one paragraph (what, where, what it
 needs to manifest, demo/test outcomes).
-''' % dict(W=W, OUT=OUT, text=text, pid=pid))
+''' % dict(W=W, OUT=OUT, text=text, pid=pid, EARLIER=EARLIER, KNOWN=KNOWN))
 print(OUT + '/BRIEF.md')
